@@ -231,7 +231,7 @@ func litestream.(*WALReader).pageMap(r, ctx, maxBytes) (m, maxOffset, commit, li
   assumes r.pageSize % 8 == 0 && r.pageSize <= 65536        // A-C09-pagesize
   requires 32 + r.frameN * (r.pageSize + 24) <= 4611686018427387904
   requires pm_commitOff == 0 && !pm_lastCommit
-  modifies $heap, $alloc, pm_commitOff, pm_lastCommit
+  modifies $alloc, pm_commitOff, pm_lastCommit, r.chksum1, r.chksum2, r.frameN
   at litestream.(*WALReader).ReadFrame#1 set pm_commitOff = ($result2 == nil && $result1 != 0 ? pmCur(r) : pm_commitOff)
   at litestream.(*WALReader).ReadFrame#1 set pm_lastCommit = ($result2 == nil ? $result1 != 0 : pm_lastCommit)
   ensures [C09.commit-gate] err == nil ==> pmMapOK(m, r.r, pm_commitOff) && pm_commitOff <= 4611686018427387904 && m != nil
@@ -261,7 +261,7 @@ func litestream.NewWALReader(rd, logger) (r, err)
 func litestream.NewWALReaderWithOffset(ctx, rd, offset, salt1, salt2, logger) (r, err)
   requires rd != nil && offset <= 4611686018427387904
   assumes fbe32(rd, 8) % 8 == 0 && fbe32(rd, 8) <= 65536      // A-C09-pagesize
-  modifies $heap, $alloc
+  modifies $alloc
   ensures [C09.resume] err == nil ==> r != nil && r.r == rd && r.salt1 == salt1 && r.salt2 == salt2 && boOK(r.bo) && r.pageSize == fbe32(rd, 8) && r.frameN >= 1
   ensures [C09.resume-pos] err == nil ==> 32 + r.frameN * (r.pageSize + 24) == offset
   ensures [C09.resume-prev] err == nil ==> fbe32(rd, offset - (r.pageSize + 24) + 8) == salt1 && fbe32(rd, offset - (r.pageSize + 24) + 12) == salt2
@@ -277,8 +277,8 @@ func litestream.(*DB).writeLTXFromDB(db, ctx, enc, walFile, commit, pageMap) (er
   requires db != nil && enc != nil
   assumes 1 <= db.pageSize && db.pageSize <= 65536 && commit < 4294967295     // A-pagesize: DB.pageSize is a valid SQLite page size
   requires enc_last[enc] == 0 && (forall p int :: {enc_pages[enc][p]} !enc_pages[enc][p])
-  requires forall p int :: {has(pageMap, p)} has(pageMap, p) ==> 0 <= pageMap[p] && pageMap[p] < 4611686018427387904
-  modifies $heap, $alloc, enc_pages, enc_last, path_synced
+  requires forall p int :: {has(pageMap, p)} has(pageMap, p) ==> 0 <= pageMap[p] && pageMap[p] <= 4611686018427387904
+  modifies $alloc, enc_pages, enc_last, path_synced
   at ltx.(*Encoder).EncodePage#all assert [C17.lock-def] lockPgno == lockPg(db.pageSize)
   at ltx.(*Encoder).EncodePage#all assert [C17.no-lock] $arg0.Pgno != lockPgno
   at ltx.(*Encoder).EncodePage#all assert [C17.snapshot-next] $arg0.Pgno == (enc_last[enc] + 1 == lockPgno ? enc_last[enc] + 2 : enc_last[enc] + 1) && $arg0.Pgno <= commit
@@ -293,9 +293,9 @@ func litestream.(*DB).writeLTXFromWAL(db, ctx, enc, walFile, prevCommit, commit,
   requires db != nil && enc != nil && pageMap != nil
   assumes 1 <= db.pageSize && db.pageSize <= 65536 && commit < 4294967295     // A-pagesize
   requires enc_last[enc] == 0 && (forall p int :: {enc_pages[enc][p]} !enc_pages[enc][p])
-  requires forall p int :: {has(pageMap, p)} has(pageMap, p) ==> 0 <= pageMap[p] && pageMap[p] < 4611686018427387904
+  requires forall p int :: {has(pageMap, p)} has(pageMap, p) ==> 0 <= pageMap[p] && pageMap[p] <= 4611686018427387904
   assumes !has(pageMap, lockPg(db.pageSize)) && !has(pageMap, 0)     // A-C17-wal: SQLite never writes page 0 or the lock page into the WAL
-  modifies $heap, $alloc, enc_pages, enc_last, path_synced
+  modifies $alloc, enc_pages, enc_last, path_synced
   at ltx.(*Encoder).EncodePage#all assert [C17.lock-def] lockPgno == lockPg(db.pageSize)
   at ltx.(*Encoder).EncodePage#all assert [C17.no-lock] $arg0.Pgno != lockPgno
   at ltx.(*Encoder).EncodePage#all assert [C17.incremental-order] $arg0.Pgno > enc_last[enc]
@@ -498,4 +498,34 @@ func litestream.(*Replica).RestoreV3(r, ctx, opt) (err)
   ensures [C10.err-download] c10_dlErr != nil || c10_applyErr != nil ==> err != nil && !pub_renamed
   ensures [C10.integrity-err] c10_integrityErr != nil ==> err != nil
   ensures [C10.integrity-remove] c10_integrityErr != nil && c10_ctxErr == nil ==> c10_removed
+
+// ---------------------------------------------------------------------------
+// DB.sync: one level-0 file per sync (C01/C02), staged and published durably (C03/C11).
+ghost sync_off Int
+ghost sync_sz Int
+ghost sync_hdr Bool
+
+func litestream.(*DB).sync(db, ctx, checkpointing, exec, info, maxSyncWALBytes) (result, err)
+  requires db != nil && exec != nil && !pub_renamed && !sync_hdr && pm_commitOff == 0 && !pm_lastCommit
+  requires 32 <= info.offset && info.offset <= 4611686018427387904 && exec.pos.TXID < 9223372036854775807
+  modifies $heap, $alloc, file_written, path_synced, path_handle, file_closed, pub_dst, pub_renamed, enc_pages, enc_last, pm_commitOff, pm_lastCommit, sync_off, sync_sz, sync_hdr
+  at litestream.DB.openLTXFile#all assert [C03.tmp-only] $arg0 == tmpFilename && tmpFilename == concat(filename, ".tmp")
+  at ltx.NewEncoder#1 assert [C01.encoder-target] $arg0 == ltxFile && ltxFile != nil && path_handle[tmpFilename] == ltxFile
+  at ltx.(*Encoder).EncodeHeader#1 assert [C01.txid] $arg0.MinTXID == exec.pos.TXID + 1 && $arg0.MaxTXID == $arg0.MinTXID && filename != "" 
+  at ltx.(*Encoder).EncodeHeader#1 assert [C01.cursor] $arg0.WALOffset == info.offset && $arg0.WALSize == sz && sz >= 0 && (maxOffset > 0 ==> info.offset + sz == maxOffset) && (maxOffset == 0 ==> sz == 0) && $arg0.WALSalt1 == rd.salt1 && $arg0.WALSalt2 == rd.salt2
+  at ltx.(*Encoder).EncodeHeader#1 assert [C01.commit] $arg0.Commit == commit && (walCommit > 0 ==> commit == walCommit) && $arg0.PageSize == db.pageSize
+  at ltx.(*Encoder).EncodeHeader#1 set sync_off = $arg0.WALOffset
+  at ltx.(*Encoder).EncodeHeader#1 set sync_sz = $arg0.WALSize
+  at ltx.(*Encoder).EncodeHeader#1 set sync_hdr = true
+  at litestream.(*DB).writeLTXFromDB#1 assert [C01.pages-snapshot] info.snapshotting && $arg1 == enc && $arg2 == walFile && $arg3 == commit && $arg4 == pageMap
+  at litestream.(*DB).writeLTXFromWAL#1 assert [C01.pages-incremental] !info.snapshotting && $arg1 == enc && $arg2 == walFile && $arg3 == info.prevCommit && $arg4 == commit && $arg5 == pageMap
+  at os.Rename#all assert [C03.publish-from-tmp] $arg0 == tmpFilename && $arg1 == filename && !pub_renamed
+  at os.Rename#all assert [C11.flush] ltxFile != nil && path_handle[$arg0] == ltxFile && path_synced[$arg0] && file_closed[ltxFile]
+  at os.Rename#all assert [C01.skip-guard] info.snapshotting || sz > 0
+  at os.Rename#1 set pub_dst = $arg1
+  at os.Rename#1 set pub_renamed = ($result0 == nil)
+  ensures [C11.dir] err == nil && result.synced ==> pub_renamed && path_synced[path_dir(pub_dst)] && path_synced[pub_dst]
+  ensures [C01.skip] err == nil && !result.synced ==> !pub_renamed
+  ensures [C01.tiling] err == nil && result.synced ==> sync_hdr && result.newWALSize == sync_off + sync_sz
+  ensures [C01.error-no-ack] err != nil ==> !result.synced
 */
